@@ -691,7 +691,8 @@ class Grid:
 
             if ax_metric_weighted:
                 metric = self.get_metric(array, ax_metric_weighted)
-                array = array * metric
+                # arithmetic with a differently named array drops the name
+                array = (array * metric).rename(array.name)
 
             # if chunked along core dim then we need map_overlap
             core_dim = self._get_dims_from_axis(data, ax_name)
@@ -716,7 +717,7 @@ class Grid:
 
             if ax_metric_weighted:
                 metric = self.get_metric(array, ax_metric_weighted)
-                array = array / metric
+                array = (array / metric).rename(array.name)
 
         return self._transpose_to_keep_same_dim_order(data_unpacked, array, axis)
 
@@ -1146,7 +1147,7 @@ class Grid:
             ax_metric_weighted = metric_weighted[ax.name]
             if ax_metric_weighted:
                 metric = self.get_metric(data, ax_metric_weighted)
-                data = data * metric
+                data = (data * metric).rename(data.name)
 
             # first use xarray's cumsum method
             data = data.cumsum(dim=dim)
@@ -1207,7 +1208,7 @@ class Grid:
             ax_metric_weighted = metric_weighted[ax.name]
             if ax_metric_weighted:
                 metric = self.get_metric(reattached, ax_metric_weighted)
-                reattached = reattached / metric
+                reattached = (reattached / metric).rename(reattached.name)
 
             data = reattached
 
